@@ -150,15 +150,13 @@ Section Depth.
     rewrite copy_tree_S. unfold bind at 1. unfold getn at 1. rewrite Gc.
     assert (MM : forall l hk, (forall c, In c l -> In c (children nx)) ->
                (forall y, (y < length h)%nat -> get hk y = get h y) -> (length h <= length hk)%nat ->
-               exists hk' ids, mmap (fun c => nc <- getn c ;; copy_tree f c (parent nc)) l hk = (hk', R ids) /\
+               exists hk' ids, mmap (fun c => copy_tree f c None) l hk = (hk', R ids) /\
                                (forall y, (y < length h)%nat -> get hk' y = get h y) /\ (length h <= length hk')%nat).
     { induction l as [|c l IHl]; intros hk Sub Oldk Lenk.
       - exists hk, []. cbn. auto.
       - assert (Dc : depth h r c (S d)) by (econstructor; eauto; apply Sub; now left).
-        destruct (live_get _ _ _ I c (depth_reach _ _ _ _ Dc)) as (nc & Gcc).
-        assert (Gck : get hk c = Some nc) by (rewrite Oldk; auto; eapply get_lt; eauto).
-        cbn [mmap]. unfold bind at 1. unfold bind at 1. unfold getn at 1. rewrite Gck.
-        destruct (IH c (S d) (parent nc) hk Dc) as (ha & ca & Ea); [lia|auto|auto|]. rewrite Ea.
+        cbn [mmap]. unfold bind at 1.
+        destruct (IH c (S d) None hk Dc) as (ha & ca & Ea); [lia|auto|auto|]. rewrite Ea.
         destruct (copy_tree_spec _ _ _ _ _ _ Ea) as (L1 & L2 & Oa & _).
         destruct (IHl ha) as (hb & ids & Eb & Ob & Lb).
         { intros; apply Sub; now right. }
